@@ -245,19 +245,65 @@ pub fn cop(b: &E3Bias) -> BoxedStrategy<COp> {
     Union::new_weighted(alts).boxed()
 }
 
+fn heat(op: &mut COp, hot_k: u8, hot_c: u8, mask: u8) {
+    // mask bit0: use the hot key, bit1: use the hot content
+    match op {
+        COp::Put { k, c } | COp::Abort { k, c } => {
+            if mask & 1 != 0 {
+                *k = hot_k;
+            }
+            if mask & 2 != 0 {
+                *c = hot_c;
+            }
+        }
+        COp::Remove { k } | COp::Get { k } | COp::GetSize { k } | COp::GetReader { k } | COp::GetRange { k, .. } => {
+            if mask & 1 != 0 {
+                *k = hot_k;
+            }
+        }
+        COp::DeleteOrphan { c } => {
+            if mask & 2 != 0 {
+                *c = hot_c;
+            }
+        }
+        _ => {}
+    }
+}
+
 pub fn prog(b: &E3Bias) -> BoxedStrategy<Prog> {
     let keys = b.keys;
     let cs = b.contents;
+    let hot = (0..keys, 0..cs, vec(0u8..8, 16));
     let orphans = if b.plant_orphans { vec(0..cs, 1..3).boxed() } else { Just(Vec::new()).boxed() };
-    (proptest::sample::select(b.ns.clone()), vec((0..keys, 0..cs), 0..4), orphans, vec(vec(cop(b), 1..=b.max_ops), 2..=b.max_threads))
-        .prop_map(|(n, init, orphans, threads)| Prog { n, init, orphans, threads })
+    (proptest::sample::select(b.ns.clone()), vec((0..keys, 0..cs), 0..4), orphans, vec(vec(cop(b), 1..=b.max_ops), 2..=b.max_threads), hot)
+        .prop_map(|(n, mut init, mut orphans, mut threads, (hot_k, hot_c, masks))| {
+            // collisions are what matters: about half of the ops are pulled onto one hot key / hot content
+            let mut i = 0;
+            for t in threads.iter_mut() {
+                for op in t.iter_mut() {
+                    let m = masks[i % masks.len()];
+                    i += 1;
+                    heat(op, hot_k, hot_c, if m < 5 { m & 3 } else { 0 });
+                }
+            }
+            if masks[0] & 1 != 0 {
+                if let Some(x) = init.first_mut() {
+                    x.1 = hot_c;
+                }
+                if let Some(o) = orphans.first_mut() {
+                    *o = hot_c;
+                }
+            }
+            Prog { n, init, orphans, threads }
+        })
         .boxed()
 }
 
 pub fn sched_case(b: &E3Bias) -> BoxedStrategy<SchedCase> {
     let mode = prop_oneof![
-        1 => Just(Mode::Walk),
-        1 => (vec(any::<u8>(), 4), vec(0u8..40, 0..3)).prop_map(|(prio, changes)| Mode::Pct { prio, changes }),
+        2 => Just(Mode::Walk),
+        2 => (vec(any::<u8>(), 4), vec(0u8..40, 0..3)).prop_map(|(prio, changes)| Mode::Pct { prio, changes }),
+        3 => (vec(any::<u8>(), 4), vec(0u16..24, 0..3), prop::bool::weighted(0.2)).prop_map(|(prio, preempt, all_points)| Mode::Points { prio, preempt, all_points }),
     ];
     (prog(b), mode, vec(any::<u16>(), 0..70)).prop_map(|(prog, mode, choices)| SchedCase { prog, mode, choices }).boxed()
 }
